@@ -69,7 +69,8 @@ def probe_reject(inp: Dict[str, Any]) -> Dict[str, Any]:
 
 
 def probe_finite(inp: Dict[str, Any]) -> Dict[str, Any]:
-    sp = esh.settings(method=inp["method"], eps=1e-7, converger=inp.get("converger", [1]), uhf=inp.get("uhf", False))
+    sp = esh.settings(method=inp["method"], eps=1e-7, converger=inp.get("converger", [1]), uhf=inp.get("uhf", False), analytical=inp.get("analytical"),
+                      **({"dispersion": True} if inp.get("dispersion") else {}))
     z, x = esh.geom(inp["name"])
     x = x * inp.get("scale", 1.0)
     ch = np.array([inp.get("charge", esh.CHARGE.get(inp["name"], 0))], dtype=float)
@@ -173,7 +174,15 @@ def gen_cases(ctx: Ctx):
         c = {"name": nm, "method": methods[i % 4], "scale": float(rng.choice([0.55, 0.7, 1.0, 1.6, 3.0, 8.0, 25.0])), "converger": [[1], [0, 0.3], [2]][i % 3]}
         if i % 6 == 5:
             c["charge"] = int(rng.choice([2, -2, 4]))
+        if c["method"] == "AM1" and i % 8 == 0:
+            c["dispersion"] = True      # optional Hamiltonian term (AM1-FS1 pair correction with a damping function)
+        if i % 5 == 3:
+            c["analytical"] = [True]
         cases.append(("finite", c))
+    # optional pair corrections at compressed geometries (damping functions saturate there), both force routes
+    for nm, sc in (("h2", 0.6), ("h2o", 0.6), ("ch4", 0.65)) if ctx.thorough else (("h2", 0.6), ("h2o", 0.6)):
+        cases.append(("finite", {"name": nm, "method": "AM1", "scale": sc, "dispersion": True}))
+    cases.append(("finite", {"name": "h2o", "method": "AM1", "scale": 0.6, "dispersion": True, "analytical": [True]}))
     return cases
 
 
